@@ -255,5 +255,9 @@ opunit("lenprefix", "RULE_LENPREFIX",
        [M("lenprefix-mode-leak", "            up1(s);\n            s->mode = oldmode;\n            if (NULL == next_text) return NULL;", "            up1(s);\n            if (NULL == next_text) return NULL;\n            s->mode = oldmode;", "RESTORE")],
        tail_not=None, unwindset=dict(HLOOPS, **{lid: 1 for lid in TAILS.values()}), tier="quick", timeout=300)
 
+# solver choice measured per unit: minisat does not finish peg.rule.accumulate in 30 min, cadical needs 5
+for u in units:
+    if u["id"] in ("peg.rule.accumulate",):
+        u["cbmc"] = list(u.get("cbmc") or []) + ["--sat-solver", "cadical"]
 json.dump({"units": units}, open(os.path.join(V, "units", "C12.json"), "w"), indent=1)
 print("wrote %d units" % len(units))
